@@ -788,6 +788,9 @@ fn do_suspend(ctx: &Arc<RunCtx>, op: OpId, d: &Obj) {
     rec.call_tid.store(tid_hash(), ORD);
     rec.accepted.store(true, ORD);
     rec.inv.store(clock(), ORD);
+    #[cfg(not(feature = "hooks"))]
+    let fut = { let _ = d; let q = desync::scheduler::queue(); let _b = ctx.blocked(op, PH_CALL); desync::scheduler::scheduler().suspend(&q) };
+    #[cfg(feature = "hooks")]
     let fut = { let _b = ctx.blocked(op, PH_CALL); desync::scheduler::scheduler().suspend(d.verif_queue()) };
     rec.ret.store(clock(), ORD);
     ctx.note_for_firer();
@@ -818,6 +821,10 @@ pub fn do_resume(ctx: &RunCtx, op: OpId, use_it: bool) {
 // ---------------------------------------------------------------------------------------------
 // The firer thread: external events
 
+#[cfg(not(feature = "hooks"))]
+pub fn queue_state_class(_d: &Obj) -> usize { 8 }
+
+#[cfg(feature = "hooks")]
 pub fn queue_state_class(d: &Obj) -> usize {
     let s = format!("{:?}", d.verif_queue());
     for (i, name) in WAKE_STATES.iter().enumerate().rev() {
